@@ -578,7 +578,7 @@ func writeEvidence(verifDir string, res *CheckResult, cs *ContractSet, extra map
 		"every non-nil tensor.Tensor value is a *tensor.Dense",
 		"package-level variables of the module are not mutated from outside the module (stores inside the module are reported as violations)",
 		"spare capacity of caller-supplied slices (beyond len) is not observed by callers (append may write there)",
-		"floating point: comparisons, negation, abs, conversions and NaN/Inf classification are interpreted in the SMT floating-point theory; IEEE +, -, *, / are opaque function symbols (results equal only for equal operands); math.F and gorgonia's scalar kernels (exp, tanh) are uninterpreted - their accuracy and special-value behaviour are assumed, not proved",
+		"floating point: comparisons, negation, abs, float32<->float64 conversions, integer literals converted to float and NaN/Inf classification are interpreted in the SMT floating-point theory; the conversion of a non-literal integer to float (int_to_f32 / int_to_f64) and of a float to an integer (one function per type pair) are uninterpreted - contracts pin which conversion is applied to which value, not its numeric result; IEEE +, -, *, / are opaque function symbols (results equal only for equal operands); math.F and gorgonia's scalar kernels (exp, tanh) are uninterpreted - their accuracy and special-value behaviour are assumed, not proved",
 		"generic element: clauses over gen32/gen64/genb speak about one arbitrary element position; gorgonia's pointwise kernels are assumed to combine operands position by position (equal shapes, or one scalar operand) as their trusted models state",
 	}
 	ev := Evidence{PropertyID: res.Property, Tier: res.Tier, Seed: seed, Level: "proof", Coverage: cov,
